@@ -18,6 +18,7 @@
 package validator
 
 import (
+	"io"
 	"net/http"
 
 	"fmt"
@@ -152,7 +153,17 @@ func (v *Validator) Handle(ctx *context.Context) string {
 		}
 	}
 	if v.signer != nil {
-		if err := v.signer.Verify(req.Std()); err != nil {
+		stdr := req.Std()
+		if !req.IsStream() {
+			// The body of the underlying http.Request has already been read
+			// into the payload, verify the signature against the payload,
+			// that's the body which will be forwarded. Use a shallow copy
+			// as the signer replaces the body of the request it verifies.
+			r := *stdr
+			r.Body = io.NopCloser(req.GetPayload())
+			stdr = &r
+		}
+		if err := v.signer.Verify(stdr); err != nil {
 			prepareErrorResponse(http.StatusUnauthorized, "signature validator: ", err)
 			return resultInvalid
 		}
